@@ -137,9 +137,12 @@ def case_line(cid, chain, name=None, mode="dir", size=40, var=0, flags="-", usen
         cid, ",".join(":".join(h) for h in chain), "-" if name is None else "x" + bytes(name).hex(), mode, size, var, flags, usename)
 
 
-def concretise(rng, p, resp):
-    """model response -> harness hop (path, resp[, impl])"""
+def concretise(rng, p, resp, kind=None):
+    """model response -> harness hop (path, resp[, impl]).  The model's "substituted" stands for any non-empty other bytes:
+    it is rendered as substituted / truncated / extended (`kind` forces one)."""
     ctlish = p in ("control", "fallback", "local")
+    if resp == "substituted":
+        resp = kind or rng.choice(["substituted", "truncated", "extended"])
     if resp == "error":
         resp = rng.choice(["error", "error", "down"] + (["shortstream"] if ctlish else []))
     if ctlish and resp in ("correct", "error", "empty", "truncated", "substituted", "extended") and rng.random() < 0.2:
@@ -147,8 +150,8 @@ def concretise(rng, p, resp):
     return (p, resp)
 
 
-def lines_from_path_state(rng, cid, st):
-    chain = [concretise(rng, p, st["cfg"][p]) for p in PATHS if st["cfg"][p] != "absent"]
+def lines_from_path_state(rng, cid, st, kind=None):
+    chain = [concretise(rng, p, st["cfg"][p], kind) for p in PATHS if st["cfg"][p] != "absent"]
     size = rng.choice([1, 2, 3, 17, 40, 64, 255, 1000, 4096, 70000])
     if any(h[1] == "truncated" for h in chain):
         size = max(size, 2)
@@ -392,10 +395,13 @@ def run_c30(chk):
     design, tlc_lines = {}, []
     cid = 1
     for st in picked:
-        ln = lines_from_path_state(rng, cid, st)
-        design[ln] = st
-        tlc_lines.append(ln)
-        cid += 1
+        present = [p for p in PATHS if st["cfg"][p] != "absent"]
+        single_sub = len(present) == 1 and st["cfg"][present[0]] == "substituted" and st["flags"] == "-"
+        for kind in (("substituted", "truncated", "extended") if single_sub else (None,)):   # every kind of "other bytes" alone on every path
+            ln = lines_from_path_state(rng, cid, st, kind)
+            design[ln] = st
+            tlc_lines.append(ln)
+            cid += 1
     # seeded random multi-hop chains with every hostile kind, quirks included
     rnd = []
     for _ in range(600 if thorough else 30):
